@@ -550,9 +550,14 @@ func (g *gen) newCase(colon, errs, big bool) Case {
 	var c Case
 	lpool := []string{"default", "la", "lb", "la/sub"}
 	vpool := []string{"va", "vb", "vc", "va/sub"}
+	// two (layout, view) pairs that coincide when the names are joined with a separator character: whatever
+	// the providers key their view cache by, the pairs must stay apart (":" was the separator of the repaired
+	// defect 7d60dbb; "/" is the one nested names contain anyway)
+	sep := ":"
 	if colon {
-		lpool = []string{"p:q", "p", "default", "la"}
-		vpool = []string{"r", "q:r", "va", "vb"}
+		sep = g.r.Pick([]string{":", "/"})
+		lpool = []string{"p" + sep + "q", "p", "default", "la"}
+		vpool = []string{"r", "q" + sep + "r", "va", "vb"}
 		c.Tags = append(c.Tags, "colon-names")
 	}
 	layouts, views := g.subset(lpool, 1), g.subset(vpool, 1)
@@ -638,9 +643,9 @@ func (g *gen) newCase(colon, errs, big bool) Case {
 			r = ReqSpec{Op: "view", L: g.r.Pick(lreq), V: g.r.Pick(vreq), Exec: g.r.Chance(1, 3)}
 			if colon && g.r.Chance(1, 2) { // the two pairs whose joined keys coincide
 				if g.r.Chance(1, 2) {
-					r.L, r.V = "p:q", "r"
+					r.L, r.V = "p"+sep+"q", "r"
 				} else {
-					r.L, r.V = "p", "q:r"
+					r.L, r.V = "p", "q"+sep+"r"
 				}
 			}
 			if g.r.Chance(1, 40) {
